@@ -549,6 +549,8 @@ pub fn run(run: &mut Run) {
     run_tapes(run, lanes, n, 300, &check_random);
     let n2 = if run.thorough() { 20000 } else { 2500 };
     run_tapes(run, lanes, n2, 1200, &check_sprite);
+    // thorough only: coverage-guided search over generator tapes with the same oracle
+    crate::fuzzstage::fuzz_tapes(run, 1200, 120);
 }
 
 pub fn replay(case: &serde_json::Value) -> CheckResult {
